@@ -369,7 +369,7 @@ void h_check_splice(void)
 	__CPROVER_assert(IFF(splice_available == 1, verif_in.pipe2_errno != 0 && verif_in.pipe2_errno != ENOSYS ? 0 :
 			 ((verif_in.pipe2_errno == 0 || verif_in.pipe_errno == 0) && verif_in.probe_ret < 0 && verif_in.probe_errno == EAGAIN)),
 			 "[C15] splice is used iff two pipes could be made and splicing between two empty pipes reports would-block; otherwise read/write mode");
-	__CPROVER_assert(splice_available == 1 ? (v_tinfo.num_bufs == 2 && k_open_count() == 4) : (v_tinfo.num_bufs == 0 && k_open_count() == 0), "[C18] probe pipes are cached when usable, closed otherwise");
+	__CPROVER_assert(splice_available == 1 ? (v_tinfo.num_bufs == 2 && k_open_count() == 4) : (v_tinfo.num_bufs == 0 && k_open_count() == 0), "[C18,C15,C17] probe pipes are cached when usable, closed and freed otherwise (a pipe-sized block left in the cache would be used as a 4096-byte buffer by the read/write fallback)");
 	__CPROVER_assert(k_bad_close == 0, "[C18] no descriptor is closed twice");
 	CANARY();
 }
